@@ -226,18 +226,21 @@ structure Q4 (a x : Cache) : Prop where
   pending : x.pending = a.pending
   created : x.created = a.created
   files : x.files = a.files
+  nfile : x.nfile = a.nfile
 
-theorem Q4.refl (s : Cache) : Q4 s s := ⟨rfl, rfl, rfl, rfl, rfl⟩
+theorem Q4.refl (s : Cache) : Q4 s s := ⟨rfl, rfl, rfl, rfl, rfl, rfl⟩
 
 theorem Q4.same {a x y : Cache} (h : Q4 a x) (h1 : y.depth = x.depth) (h2 : y.snap = x.snap)
-    (h3 : y.pending = x.pending) (h4 : y.created = x.created) (h5 : y.files = x.files := by rfl) : Q4 a y :=
-  ⟨h1.trans h.depth, h2.trans h.snap, h3.trans h.pending, h4.trans h.created, h5.trans h.files⟩
+    (h3 : y.pending = x.pending) (h4 : y.created = x.created) (h5 : y.files = x.files := by rfl)
+    (h6 : y.nfile = x.nfile := by rfl) : Q4 a y :=
+  ⟨h1.trans h.depth, h2.trans h.snap, h3.trans h.pending, h4.trans h.created, h5.trans h.files,
+    h6.trans h.nfile⟩
 
 theorem Q4.core {a x y : Cache} (h : Q4 a x) (R : List Row)
     (hc : DC.Cache.core y = { DC.Cache.core x with rows := R }) : Q4 a y := by
   simp only [DC.Cache.core, Core.mk.injEq] at hc
-  obtain ⟨-, hf, -, hd, hs, hp, hcr, -, -⟩ := hc
-  exact h.same hd hs hp hcr hf
+  obtain ⟨-, hf, hn, hd, hs, hp, hcr, -, -⟩ := hc
+  exact h.same hd hs hp hcr hf hn
 
 theorem Q4.core' {a x y : Cache} (h : Q4 a x) (hc : DC.Cache.core y = DC.Cache.core x) : Q4 a y :=
   h.core x.rows (by rw [hc]; rfl)
@@ -272,13 +275,14 @@ theorem Q4.cullW {a x : Cache} (h : Q4 a x) (now : Int) : Q4 a (x.cullW now).1 :
 theorem store_fields {x x' : Cache} {E : Externals} {v : PyVal} {read : Bool} {c : Cols}
     (hst : x.store E v read = .ok (x', c)) :
     x'.depth = x.depth ∧ x'.snap = x.snap ∧ x'.pending = x.pending ∧ x'.created = x.created ∧
-    (∀ p ∈ x'.files, p ∈ x.files ∨ c.file = some p.1) := by
+    (∀ p ∈ x'.files, p ∈ x.files ∨ c.file = some p.1) ∧
+    x.nfile ≤ x'.nfile ∧ (∀ g, c.file = some g → x.nfile ≤ g) := by
   unfold DC.Cache.store at hst
   split at hst
   · cases hst
-  · cases hst; exact ⟨rfl, rfl, rfl, rfl, fun p hp => .inl hp⟩
+  · cases hst; exact ⟨rfl, rfl, rfl, rfl, fun p hp => .inl hp, Nat.le_refl _, by intro g hg; cases hg⟩
   · cases hst
-    refine ⟨rfl, rfl, rfl, rfl, ?_⟩
+    refine ⟨rfl, rfl, rfl, rfl, ?_, Nat.le_succ _, by intro g hg; cases hg; exact Nat.le_refl _⟩
     intro p hp
     have hp : p ∈ x.files ++ [(x.nfile, _)] := hp
     rcases List.mem_append.1 hp with hp | hp
@@ -307,21 +311,95 @@ macro "q4_auto" : tactic => `(tactic| repeat' first
 
 /-! ### the invariant inside a block -/
 
-/-- every file of the cleanup list is pending removal or was created in this block -/
-def Sub (cl : List (Option Nat)) (x : Cache) : Prop :=
-  ∀ f, some f ∈ cl → some f ∈ x.pending ∨ f ∈ x.created
+/-- every file of the cleanup list is pending removal or was created in this block; and every
+file pending removal is in the cleanup list and has a number already given out (so the next file
+written cannot be one of them) -/
+structure Sub (cl : List (Option Nat)) (x : Cache) : Prop where
+  inn : ∀ f, some f ∈ cl → some f ∈ x.pending ∨ f ∈ x.created
+  pend : ∀ f, some f ∈ x.pending → some f ∈ cl ∧ f < x.nfile
 
 /-- inside a block: the files are consistent once those of some list `cl` are removed -/
 def BI (x : Cache) : Prop := ∃ cl, PI (fcore x) cl ∧ Sub cl x
 
 theorem Sub.of_eq {cl : List (Option Nat)} {a x : Cache} (h : Sub cl a) (hp : x.pending = a.pending)
-    (hc : x.created = a.created) : Sub cl x := by
-  intro f hf
-  rw [hp, hc]
-  exact h f hf
+    (hc : x.created = a.created) (hn : x.nfile = a.nfile := by rfl) : Sub cl x := by
+  constructor
+  · intro f hf; rw [hp, hc]; exact h.inn f hf
+  · intro f hf; rw [hp] at hf; rw [hn]; exact h.pend f hf
 
 theorem Sub.q4 {cl : List (Option Nat)} {a x : Cache} (h : Sub cl a) (hq : Q4 a x) : Sub cl x :=
-  h.of_eq hq.pending hq.created
+  h.of_eq hq.pending hq.created hq.nfile
+
+/-- the cleanup list after the file written for this call has been attached to its row -/
+def dropFile (cl : List (Option Nat)) (f : Option Nat) : List (Option Nat) := cl.filter (· != f)
+
+theorem mem_dropFile {cl : List (Option Nat)} {f g : Option Nat} : g ∈ dropFile cl f ↔ g ∈ cl ∧ g ≠ f := by
+  simp [dropFile]
+
+/-- a file written after `x` (its number is not below `x.nfile`) can be dropped from the list -/
+theorem Sub.dropGrow {cl : List (Option Nat)} {x y : Cache} (h : Sub cl x) (hp : y.pending = x.pending)
+    (hc : ∀ f ∈ x.created, f ∈ y.created) (hn : x.nfile ≤ y.nfile) (o : Option Nat)
+    (ho : ∀ g, o = some g → x.nfile ≤ g) : Sub (dropFile cl o) y := by
+  constructor
+  · intro f hf
+    rcases h.inn f (mem_dropFile.1 hf).1 with h1 | h1
+    · exact .inl (hp ▸ h1)
+    · exact .inr (hc f h1)
+  · intro f hf
+    rw [hp] at hf
+    obtain ⟨h1, h2⟩ := h.pend f hf
+    refine ⟨mem_dropFile.2 ⟨h1, ?_⟩, Nat.lt_of_lt_of_le h2 hn⟩
+    intro e
+    have := ho f e.symm
+    omega
+
+/-- a row's file has a number already given out -/
+theorem PI.ref_lt {c : Core} {cl : List (Option Nat)} (h : PI c cl) {r : Row} (hr : r ∈ c.rows) {f : Nat}
+    (hf : r.file = some f) : f < c.nfile := by
+  obtain ⟨-, ct, h1, -⟩ := h.ref r hr f hf
+  exact h.fresh _ h1
+
+theorem cullTail_snd_mem (t : Cache) (cl : List (Option Nat)) (n : Nat) :
+    ∀ o ∈ (cullTail t cl n).2, o ∈ cl ∨ ∃ r ∈ t.rows, r.file = o := by
+  unfold cullTail
+  intro o ho
+  split at ho
+  · exact .inl ho
+  split at ho
+  · exact .inl ho
+  simp only at ho
+  split at ho
+  · exact .inl ho
+  split at ho
+  · exact .inl ho
+  · rcases List.mem_append.1 ho with h | h
+    · exact .inl h
+    · obtain ⟨r, hr, rfl⟩ := List.mem_map.1 h
+      have := selPolicy_mem hr
+      exact .inr ⟨r, by simpa using this, rfl⟩
+
+/-- the files `_cull` hands to cleanup are files of rows of the table it was given -/
+theorem cullW_snd_mem (s : Cache) (now : Int) : ∀ o ∈ (s.cullW now).2, ∃ r ∈ s.rows, r.file = o := by
+  by_cases h0 : s.cfg.cullLimit = 0
+  · have h1 : s.cullW now = (s, []) := by unfold cullW; simp [h0]
+    rw [h1]; intro o ho; cases ho
+  · rw [cullW_eq s now h0]
+    intro o ho
+    split at ho
+    · rcases cullTail_snd_mem _ _ _ o ho with h | ⟨r, hr, e⟩
+      · cases h
+      · exact ⟨r, by simpa using hr, e⟩
+    · rcases cullTail_snd_mem _ _ _ o ho with h | ⟨r, hr, e⟩
+      · obtain ⟨r, hr, rfl⟩ := List.mem_map.1 h
+        exact ⟨r, (selExpired_mem hr).1, rfl⟩
+      · simp only [logSql_rows, delIn_rows] at hr
+        exact ⟨r, (List.mem_filter.1 hr).1, e⟩
+
+theorem fcullW_lt (s : Cache) (now : Int) {cl : List (Option Nat)} (h : PI (fcore s) cl) :
+    ∀ f, some f ∈ (s.cullW now).2 → f < s.nfile := by
+  intro f hf
+  obtain ⟨r, hr, e⟩ := cullW_snd_mem s now _ hf
+  exact h.ref_lt (c := fcore s) hr e
 
 /-- the files of `y` are files of `x` or were registered as created; nothing registered is
 forgotten -/
@@ -372,20 +450,26 @@ theorem transact_inblock (x : Cache) (hd : 0 < x.depth) (body : Cache → Body) 
 theorem transact_BI (x : Cache) (hd : 0 < x.depth) (body : Cache → Body) (fresh : Option Nat)
     (hq : Q4 (reg x fresh) (body (reg x fresh)).s)
     (hb : ((body (reg x fresh)).ok = true ∧
-            ∃ cl, PI (fcore (body (reg x fresh)).s) ((body (reg x fresh)).cleanup ++ cl) ∧ Sub cl (reg x fresh)) ∨
+            ∃ cl, PI (fcore (body (reg x fresh)).s) ((body (reg x fresh)).cleanup ++ cl) ∧ Sub cl (reg x fresh) ∧
+              ∀ f, some f ∈ (body (reg x fresh)).cleanup → f < (reg x fresh).nfile) ∨
           ((body (reg x fresh)).ok = false ∧
             ∃ cl, PI (fcore (body (reg x fresh)).s) cl ∧ Sub cl (reg x fresh))) :
     BI (x.transact body fresh).1 := by
   rw [transact_inblock x hd]
-  rcases hb with ⟨hok, cl, h1, h2⟩ | ⟨hok, cl, h1, h2⟩
+  rcases hb with ⟨hok, cl, h1, h2, h4⟩ | ⟨hok, cl, h1, h2⟩
   · rw [if_pos hok]
-    refine ⟨(body (reg x fresh)).cleanup ++ cl, h1, ?_⟩
-    intro f hf
-    rcases List.mem_append.1 hf with hf | hf
-    · exact .inl (List.mem_append_right _ hf)
-    · rcases (h2.q4 hq) f hf with h3 | h3
-      · exact .inl (List.mem_append_left _ h3)
-      · exact .inr h3
+    have h2' := h2.q4 hq
+    refine ⟨(body (reg x fresh)).cleanup ++ cl, h1, ?_, ?_⟩
+    · intro f hf
+      rcases List.mem_append.1 hf with hf | hf
+      · exact .inl (List.mem_append_right _ hf)
+      · rcases h2'.inn f hf with h3 | h3
+        · exact .inl (List.mem_append_left _ h3)
+        · exact .inr h3
+    · intro f hf
+      rcases List.mem_append.1 hf with hf | hf
+      · exact ⟨List.mem_append_right _ (h2'.pend f hf).1, (h2'.pend f hf).2⟩
+      · exact ⟨List.mem_append_left _ hf, by show f < (body (reg x fresh)).s.nfile; rw [hq.nfile]; exact h4 f hf⟩
   · rw [if_neg (by simp [hok])]
     exact ⟨cl, h1, h2.q4 hq⟩
 
@@ -404,46 +488,54 @@ theorem transact_inblock_q4 (x : Cache) (hd : 0 < x.depth) (body : Cache → Bod
     (x.transact body fresh).1.created = (reg x fresh).created ∧
     (x.transact body fresh).1.pending =
       x.pending ++ (if (body (reg x fresh)).ok then (body (reg x fresh)).cleanup else []) ∧
-    (x.transact body fresh).1.files = x.files := by
+    (x.transact body fresh).1.files = x.files ∧ (x.transact body fresh).1.nfile = x.nfile := by
   obtain ⟨r1, r2, r3⟩ := reg_q4 x fresh
   have r4 : (reg x fresh).files = x.files := by cases fresh <;> rfl
+  have r5 : (reg x fresh).nfile = x.nfile := by cases fresh <;> rfl
   rw [transact_inblock x hd]
   split
   · exact ⟨hq.depth.trans r1, hq.snap.trans r2, hq.created, by show _ ++ _ = _; rw [hq.pending, r3],
-      hq.files.trans r4⟩
-  · exact ⟨hq.depth.trans r1, hq.snap.trans r2, hq.created, by rw [hq.pending, r3]; simp, hq.files.trans r4⟩
+      hq.files.trans r4, hq.nfile.trans r5⟩
+  · exact ⟨hq.depth.trans r1, hq.snap.trans r2, hq.created, by rw [hq.pending, r3]; simp, hq.files.trans r4,
+      hq.nfile.trans r5⟩
 
 /-- a transaction inside a block whose body leaves files and bookkeeping alone -/
 theorem transact_grow (x : Cache) (hd : 0 < x.depth) (body : Cache → Body) (fresh : Option Nat)
     (hq : Q4 (reg x fresh) (body (reg x fresh)).s) : Grow (reg x fresh) (x.transact body fresh).1 := by
-  obtain ⟨-, -, h3, -, h5⟩ := transact_inblock_q4 x hd body fresh hq
+  obtain ⟨-, -, h3, -, h5, -⟩ := transact_inblock_q4 x hd body fresh hq
   have r4 : (reg x fresh).files = x.files := by cases fresh <;> rfl
   exact Grow.of_eq (h5.trans r4.symm) h3
 
 /-- the same for a transaction without a file of its own -/
 theorem transact_BI' (x : Cache) (hd : 0 < x.depth) (body : Cache → Body)
     (hq : Q4 x (body x).s)
-    (hb : ((body x).ok = true ∧ ∃ cl, PI (fcore (body x).s) ((body x).cleanup ++ cl) ∧ Sub cl x) ∨
+    (hb : ((body x).ok = true ∧ ∃ cl, PI (fcore (body x).s) ((body x).cleanup ++ cl) ∧ Sub cl x ∧
+            ∀ f, some f ∈ (body x).cleanup → f < x.nfile) ∨
           ((body x).ok = false ∧ ∃ cl, PI (fcore (body x).s) cl ∧ Sub cl x)) :
     BI (x.transact body).1 := transact_BI x hd body none hq hb
 
 /-- the same with the side condition stated on the state the body leaves -/
 theorem transact_BI_s (x : Cache) (hd : 0 < x.depth) (body : Cache → Body)
-    (hb : ((body x).ok = true ∧ ∃ cl, PI (fcore (body x).s) ((body x).cleanup ++ cl) ∧ Sub cl (body x).s) ∨
+    (hb : ((body x).ok = true ∧ ∃ cl, PI (fcore (body x).s) ((body x).cleanup ++ cl) ∧ Sub cl (body x).s ∧
+            ∀ f, some f ∈ (body x).cleanup → f < (body x).s.nfile) ∨
           ((body x).ok = false ∧ ∃ cl, PI (fcore (body x).s) cl ∧ Sub cl (body x).s)) :
     BI (x.transact body).1 := by
   rw [transact_inblock x hd]
   change BI (if (body x).ok then ({ (body x).s with pending := (body x).s.pending ++ (body x).cleanup }, (body x).out)
     else ((body x).s, (body x).out) : Cache × Out).1
-  rcases hb with ⟨hok, cl, h1, h2⟩ | ⟨hok, cl, h1, h2⟩
+  rcases hb with ⟨hok, cl, h1, h2, h4⟩ | ⟨hok, cl, h1, h2⟩
   · rw [if_pos hok]
-    refine ⟨(body x).cleanup ++ cl, h1, ?_⟩
-    intro f hf
-    rcases List.mem_append.1 hf with hf | hf
-    · exact .inl (List.mem_append_right _ hf)
-    · rcases h2 f hf with h3 | h3
-      · exact .inl (List.mem_append_left _ h3)
-      · exact .inr h3
+    refine ⟨(body x).cleanup ++ cl, h1, ?_, ?_⟩
+    · intro f hf
+      rcases List.mem_append.1 hf with hf | hf
+      · exact .inl (List.mem_append_right _ hf)
+      · rcases h2.inn f hf with h3 | h3
+        · exact .inl (List.mem_append_left _ h3)
+        · exact .inr h3
+    · intro f hf
+      rcases List.mem_append.1 hf with hf | hf
+      · exact ⟨List.mem_append_right _ (h2.pend f hf).1, (h2.pend f hf).2⟩
+      · exact ⟨List.mem_append_left _ hf, h4 f hf⟩
   · rw [if_neg (by simp [hok])]
     exact ⟨cl, h1, h2⟩
 
@@ -455,33 +547,41 @@ theorem regCreated_pos (s : Cache) (f : Nat) (hd : 0 < s.depth) :
   rcases regCreated_cases s f with h | ⟨g, -, -, h⟩ <;> rw [h] <;> rfl
 
 theorem Sub.grow {cl : List (Option Nat)} {a x : Cache} (h : Sub cl a) (hp : x.pending = a.pending)
-    (hc : ∀ f ∈ a.created, f ∈ x.created) : Sub cl x := by
-  intro f hf
-  rcases h f hf with h1 | h1
-  · exact .inl (hp ▸ h1)
-  · exact .inr (hc f h1)
+    (hc : ∀ f ∈ a.created, f ∈ x.created) (hn : a.nfile ≤ x.nfile) : Sub cl x := by
+  constructor
+  · intro f hf
+    rcases h.inn f hf with h1 | h1
+    · exact .inl (hp ▸ h1)
+    · exact .inr (hc f h1)
+  · intro f hf
+    rw [hp] at hf
+    exact ⟨(h.pend f hf).1, Nat.lt_of_lt_of_le (h.pend f hf).2 hn⟩
 
 theorem Sub.reg_none {cl : List (Option Nat)} {x : Cache} (h : Sub cl x) : Sub cl (reg x none) := h
 
 theorem Sub.reg {cl : List (Option Nat)} {x : Cache} (h : Sub cl x) (fresh : Option Nat) :
     Sub (fresh :: cl) (reg x fresh) := by
-  intro f hf
-  cases fresh with
-  | none =>
-    simp only [List.mem_cons, reduceCtorEq, false_or] at hf
-    exact h f hf
-  | some g =>
-    simp only [List.mem_cons, Option.some.injEq] at hf
-    rcases hf with rfl | hf
-    · exact .inr (by simp [DC.Cache.reg])
-    · rcases h f hf with h1 | h1
-      · exact .inl h1
-      · exact .inr (by simp [DC.Cache.reg, h1])
+  have hp : (DC.Cache.reg x fresh).pending = x.pending := by cases fresh <;> rfl
+  have hn : (DC.Cache.reg x fresh).nfile = x.nfile := by cases fresh <;> rfl
+  constructor
+  · intro f hf
+    cases fresh with
+    | none =>
+      simp only [List.mem_cons, reduceCtorEq, false_or] at hf
+      exact h.inn f hf
+    | some g =>
+      simp only [List.mem_cons, Option.some.injEq] at hf
+      rcases hf with rfl | hf
+      · exact .inr (by simp [DC.Cache.reg])
+      · rcases h.inn f hf with h1 | h1
+        · exact .inl h1
+        · exact .inr (by simp [DC.Cache.reg, h1])
+  · intro f hf
+    rw [hp] at hf
+    rw [hn]
+    exact ⟨List.mem_cons_of_mem _ (h.pend f hf).1, (h.pend f hf).2⟩
 
 theorem fcore_reg (x : Cache) (fresh : Option Nat) : fcore (reg x fresh) = fcore x := by
   cases fresh <;> rfl
-
-theorem Sub.mono {cl cl2 : List (Option Nat)} {x : Cache} (h : Sub cl x)
-    (hs : ∀ f, some f ∈ cl2 → some f ∈ cl) : Sub cl2 x := fun f hf => h f (hs f hf)
 
 end DC.Cache
